@@ -178,6 +178,8 @@ type explainer struct {
 	onStack map[uint64]bool
 	// ruleIDs memoizes content-addressed rule IDs keyed by index in program.Rules.
 	ruleIDs map[int]string
+	// initialFacts indexes program.InitialFacts by hash; built on first use.
+	initialFacts map[uint64][]ast.Atom
 }
 
 func (e *explainer) explain(goal ast.Atom, depth int) []*ProofNode {
@@ -196,7 +198,7 @@ func (e *explainer) explain(goal ast.Atom, depth int) []*ProofNode {
 
 	var proofs []*ProofNode
 
-	if e.isEDB(goal.Predicate) && e.store.Contains(goal) {
+	if (e.isEDB(goal.Predicate) || e.isInitialFact(goal)) && e.store.Contains(goal) {
 		proofs = append(proofs, &ProofNode{
 			ID:   edbProofID(goal),
 			Fact: goal,
@@ -419,6 +421,26 @@ func (e *explainer) isEDB(p ast.PredicateSym) bool {
 	}
 	_, ok := e.program.EdbPredicates[p]
 	return ok
+}
+
+// isInitialFact reports whether goal is written as a fact in the program.
+// Such a fact is a base fact even when its predicate also has rules.
+func (e *explainer) isInitialFact(goal ast.Atom) bool {
+	if e.program == nil {
+		return false
+	}
+	if e.initialFacts == nil {
+		e.initialFacts = make(map[uint64][]ast.Atom, len(e.program.InitialFacts))
+		for _, f := range e.program.InitialFacts {
+			e.initialFacts[f.Hash()] = append(e.initialFacts[f.Hash()], f)
+		}
+	}
+	for _, f := range e.initialFacts[goal.Hash()] {
+		if f.Equals(goal) {
+			return true
+		}
+	}
+	return false
 }
 
 // --- helpers ---
